@@ -94,4 +94,21 @@ VERIF_CONTRACT(__CPROVER_requires(WF_SHAPE(z)) __CPROVER_requires(WF_CONTENT(z))
 	__CPROVER_requires((z)->ntr >= 1 && (z)->ntr <= 255 && t >= (z)->trs[0] && t > -TZ_TMAX && t < TZ_TMAX && CACHE_INV(z))
 	__CPROVER_ensures(CACHE_IVL(z) && (z)->cache.prev <= t && t < (z)->cache.next && RV == t + (z)->ofs[(z)->tys[(z)->cache.trno]])
 	__CPROVER_assigns((z)->cache));
+
+/* the offset in force at instant t according to the table alone (no cache): last transition <= t wins */
+static inline int S_tz_offs(const struct zif_s *z, stamp_t t)
+{
+	int o = z->ofs[z->tys[0]];
+	for (int k = 1; k < TZ_NMAX; k++) {
+		if ((size_t)k < z->ntr && z->trs[k] <= t) o = z->ofs[z->tys[k]];
+	}
+	return o;
+}
+/* local -> UTC: one refinement step of the fixed-point iteration, as a function of the TABLE only:
+ * whatever was converted before on this handle (cache state), the answer is t - offs(t - offs(t)) */
+stamp_t zif_utc_time(zif_t z, stamp_t t)
+VERIF_CONTRACT(__CPROVER_requires(WF_SHAPE(z)) __CPROVER_requires(WF_CONTENT(z))
+	__CPROVER_requires((z)->ntr >= 1 && (z)->ntr <= 255 && (z)->trs[0] > -TZ_TMAX && (z)->trs[0] < TZ_TMAX && t > (z)->trs[0] + 200000 && t > -TZ_TMAX + 200000 && t < TZ_TMAX - 200000 && CACHE_INV(z))
+	__CPROVER_ensures(RV == t - S_tz_offs(z, t - S_tz_offs(z, t)) && CACHE_INV(z))
+	__CPROVER_assigns((z)->cache));
 #endif
